@@ -68,7 +68,7 @@ fn ncname(n: &str) -> bool {
 }
 
 fn breaker(s: &mut Src, p: &mut Vec<Rec>, prefixes: &[String]) {
-    match s.below(13) {
+    match s.below(14) {
         0 => {
             if !p.is_empty() {
                 let i = s.below(p.len() as u64) as usize;
@@ -115,7 +115,20 @@ fn breaker(s: &mut Src, p: &mut Vec<Rec>, prefixes: &[String]) {
         7 => p.push(Rec { prefix: Some("nope".into()), name: "attr".into(), ty: RType::Single { min: None, max: None } }),
         8 => {
             let prefix = if prefixes.is_empty() || s.flag() { s.pick(&BAD_NAMES).to_string() } else { s.pick(prefixes).clone() };
+            if s.chance(1, 3) && prefixes.iter().any(|q| *q == prefix) {
+                // a well-formed record of the same namespace first: the malformed one is not the first of its namespace
+                p.push(Rec { prefix: Some(prefix.clone()), name: "fine".to_string(), ty: RType::Single { min: None, max: None } });
+            }
             p.push(Rec { prefix: Some(prefix), name: s.pick(&BAD_NAMES).to_string(), ty: RType::Single { min: None, max: None } });
+        }
+        13 => {
+            // a registered namespace name in another spelling (case) is not registered
+            if let Some(q) = prefixes.iter().find(|q| q.chars().any(|c| c.is_ascii_alphabetic())) {
+                let other: String = if q.chars().any(|c| c.is_ascii_lowercase()) { q.to_ascii_uppercase() } else { q.to_ascii_lowercase() };
+                if !prefixes.contains(&other) {
+                    p.push(Rec { prefix: Some(other), name: "attr".into(), ty: RType::Single { min: None, max: None } });
+                }
+            }
         }
         9 => {
             // very long prototypes: one point larger than a packet, or more records than fit a packet header
